@@ -136,11 +136,11 @@ def loops_of(src, toks, lb, rb):
                 jj = j + 1
                 while toks[jj][0] == 'pp': jj += 1
                 rp = _match_paren(src, toks, jj)
-                out.append((od, 'do', rp))
                 j = rp + 1; continue
             ordinal += 1
             if w == 'do':
                 pending_do.append((ordinal, depth))
+                out.append((ordinal, 'do', j))   # cbmc 6: do-while contracts sit between `do` and the body
             else:
                 jj = j + 1
                 while toks[jj][0] == 'pp': jj += 1
@@ -244,6 +244,10 @@ def weave(src, specs):
                 # location of the loop statement itself (legacy instrumentation reports loop obligations there)
                 j = rptok
                 d = 0
+                if kind == 'do':
+                    f1, l1 = line_at(src, toks, rptok)
+                    cmap[('LOOP', os.path.basename(f1), l1)] = (fn, f'loop{od}')
+                    continue
                 while j > lb:
                     if toks[j][0] == 'p':
                         ch = src[toks[j][1]]
